@@ -166,7 +166,7 @@ def _reg_once(check: Check, fi: FuncInfo, ff: FuncFlow, what: str):
   ok = len(calls) == 1
   c = calls[0]
   g = guards_of(ff, c)
-  arm = any(isinstance(t, ast.Compare) and isinstance(t.ops[0], ast.IsNot) and isinstance(t.left, ast.Name) and t.left.id == 'regularizer' and pol
+  arm = any(isinstance(t, ast.Compare) and isinstance(t.ops[0], ast.Is) and isinstance(t.left, ast.Name) and t.left.id == 'regularizer' and not pol
             for t, pol in g)
   in_loop = wmean._loop_of(ff, c) is not None
   st = ff.module.enclosing_stmt(c)
